@@ -114,7 +114,7 @@ func BuildOverlay(scratch string, rels []string) (map[string]string, error) {
 
 // Load type-checks and builds SSA for the given /repo-relative package dirs
 // from the current working tree plus the harness overlay.
-func Load(rels []string) (*Loaded, error) {
+func Load(rels []string, hooks ...HookSpec) (*Loaded, error) {
 	t0 := time.Now()
 	scratch, err := NewScratch()
 	if err != nil {
@@ -123,6 +123,13 @@ func Load(rels []string) (*Loaded, error) {
 	ov, err := BuildOverlay(scratch, rels)
 	if err != nil {
 		return nil, err
+	}
+	for _, h := range hooks {
+		v, r, err := rewriteWithHooks(h, scratch)
+		if err != nil {
+			return nil, err
+		}
+		ov[v] = r
 	}
 	overlay := map[string][]byte{}
 	for v, r := range ov {
@@ -252,6 +259,16 @@ func TestVReplay(t *testing.T) {
 			b, _ := os.ReadFile(r)
 			rrel, _ := filepath.Rel(RepoDir, filepath.Dir(v))
 			rp := filepath.Join(dir, "rt_"+strings.ReplaceAll(rrel, "/", "_")+".go")
+			os.WriteFile(rp, b, 0o644)
+			ov[v] = rp
+			continue
+		}
+		if strings.Contains(r, l.Scratch) {
+			b, _ := os.ReadFile(r)
+			rp := filepath.Join(dir, "overlay_"+filepath.Base(r))
+			if !strings.HasSuffix(rp, ".go") {
+				rp += ".go"
+			}
 			os.WriteFile(rp, b, 0o644)
 			ov[v] = rp
 			continue
